@@ -20,7 +20,8 @@ class C02(Prop):
                   "C02_one_byte_guards over the generated character classes; C02_bytelex_prefix_refuted: the pre-d200b95 lexer panics on every "
                   "leading multi-byte character). PARTIAL: (a) wall-clock time, real stack and allocator are measured, not proved: the totality stream "
                   "runs all ~58 public entry points on every case under a supervisor (panic / hang / abort are violations) and totality-scale "
-                  "times every entry point on adversarial seeds of growing size (worse-than-quadratic growth or > 5 s is a violation); (b) byte-boundary safety of the slicing in the remaining readers (relations lexer: chars().peekable(), no slicing; "
+                  "times every entry point on adversarial seeds of growing size (worse-than-quadratic growth or > 5 s is a violation), and totality-stack "
+                  "runs every entry point on the repeated seeds in a thread with a 256 KiB stack (stack use growing with the input overflows it: ABORT); (b) byte-boundary safety of the slicing in the remaining readers (relations lexer: chars().peekable(), no slicing; "
                   "lossy readers, pgp, codecs: str methods returning boundaries) is not modelled at byte level and rests on the streams; (c) the "
                   "external parsers themselves (url, chrono, debversion, regex) and the remaining small FromStr impls (checksum/record types, "
                   "lossless typed wrappers, which only wrap Deb822::from_str) are decided by the stream.")
@@ -30,7 +31,7 @@ class C02(Prop):
     rule = ("totality: every one of the ~58 public text-parsing entry points of the five crates on the same input: hand-written snippets of "
             "every file kind with all their truncations, CRLF / trailing-CR / non-ASCII / upper-case variants; every string up to length n over "
             "{A : SP LF - # U+00E9 ( < [}; generated and mutated deb822 documents and relationship fields; totality-scale: wall-clock of every "
-            "entry point on adversarial seeds repeated r, 4r, 16r times; non-trivial = at least one entry point accepts the input")
+            "entry point on adversarial seeds repeated r, 4r, 16r times; totality-stack: the same seeds x 6000 (thorough x 40000) on a 256 KiB thread stack; non-trivial = at least one entry point accepts the input")
     trusted = ["Coq 8.16.1 kernel", "the per-cone models (see the cones' own evidence) — C02 collects their totality theorems",
                "wall-clock, real stack and allocator behaviour are measured by the harness (supervisor kills a case after VERIF_CASE_MS), not proved",
                "extraction, OCaml runner, Rust harness, Python driver"]
